@@ -38,6 +38,7 @@ def run(chk):
         "Clone / alias / collect / transfer plumbing decided structurally: field coverage of _clone per verb class, "
         "the Alias slice of Cache.update, producer/consumer key sets of uuid_map, identity-kind inference in collect."
     )
+    chk.rule("CLONEv", "AstNode.clone() interpreted on a stub pipeline with every verb class, aliases and a self-join: every column reference of the clone denotes the clone of its column, identities regenerated")
     chk.rule("CLONE", "every _clone rebuilds all node-, expression- and identity-bearing fields")
     chk.rule("R1", "Alias._clone composes its uuid_map with the clone's map and drops it from the clone")
     chk.rule("R2", "Cache.update[Alias]: name maps, cols and partition_by are remapped through uuid_map, derived_from is cut")
@@ -49,14 +50,18 @@ def run(chk):
 
     chk.rule("R8", "a SQL subquery (alias that becomes a subquery) names the columns visible at the marker first, so they keep their names")
 
-    _clone_rule(chk, sym)
+    clone_decided = _clone_rule(chk, sym)
     marker_names(chk, "R8", sym, sib)
 
     # ---- R1
     vm = repo.mod("tree.verbs")
     ac = vm.func("Alias._clone")
     src = norm(ac)
-    chk.ob("R1", vm, ac, "Alias._clone: uuid_map' = {self.uuid_map[old]: new for old, new in uuid_map.items() if old in self.uuid_map}",
+    if clone_decided:
+        # CLONEv resolved every reference taken above an alias (and above the alias of a self-join) in the cloned tree
+        chk.ok("R1", vm, ac, "Alias._clone: decided by interpretation (CLONEv: references above aliases denote the cloned columns)")
+    else:
+      chk.ob("R1", vm, ac, "Alias._clone: uuid_map' = {self.uuid_map[old]: new for old, new in uuid_map.items() if old in self.uuid_map}",
            "self.uuid_map[old_uid]: new_uid for old_uid, new_uid in uuid_map.items() if old_uid in self.uuid_map" in src and "cloned.uuid_map = None" in src
            and "if self.uuid_map is not None" in src,
            "Alias._clone no longer composes the alias map with the clone map (references taken after the alias would not resolve in the cloned tree)")  # fmt: skip
@@ -227,6 +232,7 @@ def marker_names(chk, rule, sym, sib):
     cfg = sib.cfgs["sql"]
     items = Slicer(sym, cfg.module, cfg.subject, sym.cls("SubqueryMarker")).slice(cfg.func.body)
     stmts = []
+    branch = []  # only the statements of the `isinstance(nd, SubqueryMarker)` branch itself
 
     def rec(its):
         for it in its:
@@ -234,17 +240,47 @@ def marker_names(chk, rule, sym, sib):
                 # statements inside the `isinstance(nd, SubqueryMarker)` branch
                 for st in it.node.body if hasattr(it.node, "body") else []:
                     stmts.append(st)
+                    if "SubqueryMarker" in norm(it.test):
+                        branch.append(st)
             else:
                 stmts.append(it)
 
     rec(items)
     from ..source import AnalysisError
 
+    # decided by interpretation: the branch is executed (sqlsim) on stub state for every order of the needed columns
+    from ..interp import PyRaise, SymbolicBranch
+    from ..sqlsim import SqlWorld, marker_name_scenarios
+
+    decided = False
+    try:
+        from ..sqlsim import branch_body
+
+        w = SqlWorld(chk.repo)
+        branch = branch_body(cfg.func, cfg.subject, "SubqueryMarker")
+        if branch is None:
+            raise AnalysisError("no `isinstance(nd, SubqueryMarker)` branch in SqlImpl.compile_ast")
+        res = marker_name_scenarios(w, branch)
+        decided = True
+        anchor = next((st for st in branch if isinstance(st, ast.For)), branch[0] if branch else cfg.func)
+        for desc, ok, detail in res:
+            chk.ob(rule, cfg.module, anchor, f"SubqueryMarker: visible columns keep their names ({desc})", ok,
+                   f"a SQL subquery renames a *visible* column to resolve a name collision with a hidden one: {detail}. With "
+                   "alias(keep_col_refs=True) exported names change and a later mutate that overwrites the name no longer replaces the column")  # fmt: skip
+        chk.floor(rule, "subquery naming scenarios", len(res), 12)
+    except (AnalysisError, SymbolicBranch) as e:
+        chk.note(f"{rule}: the SubqueryMarker branch could not be interpreted ({str(e)[:140]}); falling back to the ordering idioms")
+    except PyRaise as p:
+        decided = True
+        chk.ob(rule, cfg.module, cfg.func, "SubqueryMarker branch on the naming scenarios", False, f"the SubqueryMarker branch raises {p.name}: {p.msg}")
+    if decided:
+        return
     try:
         loop, ok, why = collide.marker_dedup_order(stmts)
     except collide.Undecided as u:
-        raise AnalysisError(f"C16/{rule}: {u}") from u
-    chk.ob(rule, cfg.module, loop, "SubqueryMarker: name de-duplication visits visible columns first", ok,
+        chk.undecided.append(f"{rule}: {u}")
+        return
+    chk.ob(rule + "i", cfg.module, loop, "SubqueryMarker: name de-duplication visits visible columns first", ok,
            f"the loop that resolves name collisions in a subquery gives the plain name to the first column it meets, and {why}: "
            "with alias(keep_col_refs=True) a visible column is labelled `<name>_1` - exported names change and a later "
            "mutate that overwrites <name> no longer replaces it")  # fmt: skip
